@@ -434,7 +434,7 @@ func c12Distribute(r *Run) {
 		return
 	}
 	ff := r.P.Facts(fn)
-	const A = "fold[acc*=0; util/mathutil.AddUint64(acc*, big.Int.Uint64(local:fracInt))#0]"
+	const A = "fold[acc*=0; util/mathutil.AddUint64(acc*, big.Int.Uint64(local:big.Int))#0]"
 	r.RequireOnSuccess("C12-R4", d,
 		req("coins non-empty", "len($0) != 0"),
 		req("assigned <= hours before subtracting", strings.ReplaceAll(A, "acc*", "acc")+" <= $1"),
@@ -457,7 +457,7 @@ func c12Distribute(r *Run) {
 			}
 		}
 		switch {
-		case val == "big.Int.Uint64(local:fracInt)":
+		case val == "big.Int.Uint64(local:big.Int)":
 			init++
 			paired := false
 			for _, in := range blk.Instrs {
